@@ -254,18 +254,31 @@ pub fn run(rep: &mut Report) {
                         _ => rep.violation("C18.md_canonical", "PlainDate::to_plain_month_day", "route-fails", json!({"date": format!("{y}-{m:02}-{d:02}")}), r.map(|v| v.to_ixdtf_string(DisplayCalendar::Always)).show(), "Ok".into()),
                     }
                 }
-                let r = call(|| iso.month_day_from_partial(&PartialDate::new().with_year(Some(2023)).with_month(Some(m)).with_day(Some(d)), ArithmeticOverflow::Constrain));
-                match (&r, &reference) {
-                    (Out::Ok(v), Out::Ok(refv)) => {
-                        // a supplied year regulates the day in *that* year (02-29 with year 2023 constrains to 02-28)
-                        let want_d = d.min(dim(2023, m));
-                        let texts: Vec<String> = DISPLAYS.iter().map(|(x, _)| v.to_ixdtf_string(*x)).collect();
-                        if want_d == d && (v != refv || texts != exp_texts) {
-                            rep.violation("C18.md_canonical", "Calendar::month_day_from_partial", "from-record", case(), format!("{texts:?}"), format!("{exp_texts:?}"));
+            }
+            // from a field record: the day is regulated in the year given (02-29 with year 2023 constrains to 02-28 and is
+            // rejected under reject). A record without a year is not judged: this version of the API requires one
+            // (TypeError "Required fields missing to determine an era and year"), which the property does not forbid.
+            for yr in [Some(2023i32), Some(2024), Some(1900), Some(-4), Some(1972)] {
+                for reject in [false, true] {
+                    let lim = dim(yr.unwrap_or(1972) as i64, m);
+                    let want = if d <= lim { Some(d) } else if reject { None } else { Some(lim) };
+                    let ov = if reject { ArithmeticOverflow::Reject } else { ArithmeticOverflow::Constrain };
+                    let r = call(|| iso.month_day_from_partial(&PartialDate::new().with_year(yr).with_month(Some(m)).with_day(Some(d)), ov));
+                    let shape = format!("({},{},{})", if yr.is_some() { "with-year" } else { "no-year" }, if reject { "reject" } else { "constrain" }, if d <= lim { "day-exists" } else { "day-beyond-month" });
+                    let case = || json!({"year": yr, "month": m, "day": d});
+                    match (&r, want) {
+                        (Out::Ok(v), Some(wd)) => {
+                            let refv = call(|| PlainMonthDay::new_with_overflow(m, wd, iso.clone(), ArithmeticOverflow::Reject, None));
+                            let texts: Vec<String> = DISPLAYS.iter().map(|(x, _)| v.to_ixdtf_string(*x)).collect();
+                            let want_texts: Vec<String> = DISPLAYS.iter().map(|(x, _)| md_text(m, wd, *x)).collect();
+                            if refv.as_ok() != Some(v) || texts != want_texts {
+                                rep.violation("C18.md_canonical", "Calendar::month_day_from_partial", &shape, case(), format!("{texts:?}"), format!("{want_texts:?}"));
+                            }
                         }
+                        (Out::Err(ErrorKind::Range, _), None) => {}
+                        _ if r.is_broken() => rep.inconclusive("C18.md_canonical", "panic"),
+                        _ => rep.violation("C18.md_overflow", "Calendar::month_day_from_partial", &shape, case(), r.map(|v| v.to_ixdtf_string(DisplayCalendar::Always)).show(), format!("{want:?}")),
                     }
-                    _ if r.is_broken() => rep.inconclusive("C18.md_canonical", "panic"),
-                    _ => rep.violation("C18.md_canonical", "Calendar::month_day_from_partial", "route-fails", case(), r.map(|v| v.to_ixdtf_string(DisplayCalendar::Always)).show(), "Ok".into()),
                 }
             }
             rep.nontrivial(fp!(2u64, m, d));
@@ -401,7 +414,7 @@ pub fn run(rep: &mut Report) {
                 let k = rinc as i64;
                 let sgn = total_m.signum();
                 let r1 = (total_m.abs() / k) * k * sgn;
-                let expected = if r1 == total_m {
+                let expected_for = |mode: Mode| -> i64 { if r1 == total_m {
                     total_m
                 } else {
                     let r2 = r1 + k * sgn;
@@ -419,7 +432,8 @@ pub fn run(rep: &mut Report) {
                     let q = round_rat(sgn as i128 * (whole * den + num), den, 1, mode).0;
                     let _ = r2;
                     (q as i64) * k
-                };
+                } };
+                let expected = expected_for(mode);
                 let in_range = {
                     let t = y * 12 + (m as i64 - 1) + (total_m.abs() / k + 1) * k * sgn;
                     ym_in_limits(t.div_euclid(12), (t.rem_euclid(12) + 1) as u8) && !(t.div_euclid(12) == -271_821 && t.rem_euclid(12) + 1 == 4)
@@ -440,6 +454,22 @@ pub fn run(rep: &mut Report) {
                     if expected != total_m {
                         rep.hit("ym_diff/rounding_changed_months");
                     }
+                    // since() rounds as if negated: minus the difference rounded with the mirrored mode
+                    let exp_since = -expected_for(mode.mirrored());
+                    let r = call(|| {
+                        let a = PlainYearMonth::new_with_overflow(y as i32, m, None, iso.clone(), ArithmeticOverflow::Reject)?;
+                        let b = PlainYearMonth::new_with_overflow(y2 as i32, m2, None, iso.clone(), ArithmeticOverflow::Reject)?;
+                        a.since(&b, st)
+                    });
+                    let exp = [0., if exp_since == 0 { 0.0 } else { exp_since as f64 }, 0., 0., 0., 0., 0., 0., 0., 0.];
+                    match &r {
+                        Out::Ok(g) if dur_fields(g) == exp => {}
+                        _ if r.is_broken() => rep.inconclusive("C18.ym_diff_rounded", "panic"),
+                        _ => rep.violation("C18.ym_diff_rounded", "PlainYearMonth::since", &format!("(month,{},{})", if rinc == 1 { "inc1" } else { "inc>1" }, Mode::name(mode)), json!({"a": ym_text(y, m, DisplayCalendar::Auto), "b": ym_text(y2, m2, DisplayCalendar::Auto), "increment": rinc}), r.map(|g| format!("{:?}", dur_fields(&g))).show(), format!("{exp:?}")),
+                    }
+                    if exp_since != -expected {
+                        rep.hit("ym_diff/since_rounds_differently_from_negated_until");
+                    }
                 }
             }
         }
@@ -454,6 +484,7 @@ pub fn run(rep: &mut Report) {
     rep.require("cases");
     rep.require("ym_add/refuses_weeks_days");
     rep.require("ym_diff/rounding_changed_months");
+    rep.require("ym_diff/since_rounds_differently_from_negated_until");
 }
 
 fn rng_free(it: u64, m: u64) -> u64 {
